@@ -86,8 +86,20 @@ pub fn scenarios(alpha: &[Op], max_len: usize) -> Vec<Vec<Op>> {
     out
 }
 
+/// client capabilities that do NOT announce publishDiagnostics, in several spellings
+pub fn caps_without_diagnostics(k: usize) -> Value {
+    match k % 4 {
+        0 => json!({}),
+        1 => json!({"textDocument": {}}),
+        2 => json!({"textDocument": {"hover": {"contentFormat": ["markdown"]}, "synchronization": {"didSave": true}}}),
+        _ => json!({"textDocument": {"publishDiagnostics": null}, "workspace": {}}),
+    }
+}
+
 pub fn to_messages(sc: &[Op], diagnostics: bool) -> (Vec<Value>, Vec<(i64, usize, usize)>) {
-    let mut s = Session::new(diagnostics);
+    // which spelling of "no diagnostics" a scenario uses depends on the scenario only
+    let variant = sc.len() + sc.iter().map(|o| match o { Op::Open(u, t) => u + t, Op::Change(u, e) => u + e + 1, Op::Close(u) => u + 2, Op::Request(u, m) => u + m }).sum::<usize>();
+    let mut s = if diagnostics { Session::new(true) } else { Session::with_capabilities(caps_without_diagnostics(variant)) };
     let mut reqs = vec![];
     for op in sc {
         match op {
@@ -284,7 +296,7 @@ pub fn run(tier: Tier) -> Report {
     let mut parts = vec![];
     let mk = |k: String, d: String, c: Value| Failure { key: k, case: c, detail: d };
     // (a)+(b) all scenarios of the small alphabet, all schedules within the bound
-    let alpha = alphabet(tier.pick(2, 3), tier.pick(2, 3), tier.pick(1, 2));
+    let alpha = alphabet(tier.pick(2, 3), 3, tier.pick(1, 2));
     let all = scenarios(&alpha, tier.pick(3, 4));
     let bound = tier.pick(2, 3);
     let f: Vec<Failure> = all
@@ -293,7 +305,7 @@ pub fn run(tier: Tier) -> Report {
             // longest scenarios one bound lower, real capacities only
             let long = sc.len() >= tier.pick(3, 4);
             let configs: Vec<(usize, Option<usize>, bool)> = if long {
-                vec![(bound - 1, None, true), (bound - 2, Some(1), true)]
+                vec![(bound - 1, None, true), (bound - 2, Some(1), true), (bound - 2, None, false)]
             } else {
                 vec![(bound, None, true), (bound, Some(1), true), (bound - 1, Some(2), true), (bound - 1, None, false)]
             };
